@@ -225,19 +225,24 @@ def setpxBatch (buf0 : Array UInt8) (w h : Nat) (rot : Rotation) (k : ColorKind)
   let mut npan := 0
   let mut pan := "none"
   for (px, py) in pointsOf mode sw sh do
+    -- read the old values first so that `buf` is uniquely referenced when it is updated
+    let size := buf.size
+    let ts := (touched size w h rot k px py).filter (· < size)
+    let olds := ts.map (buf.getD · 0)
     let r := setPixel buf w h rot k bm px py
+    buf := r.1
     if r.2 then
       if npan = 0 then pan := s!"{px}.{py}"
       npan := npan + 1
       hsh := mix hsh 0x70616e6963
     hsh := mix hsh (asU32 px)
     hsh := mix hsh (asU32 py)
-    for i in touched buf.size w h rot k px py do
-      if i < buf.size ∧ buf.getD i 0 ≠ r.1.getD i 0 then
+    for (i, o) in ts.zip olds do
+      let v := buf.getD i 0
+      if o ≠ v then
         hsh := mix hsh (UInt64.ofNat i)
-        hsh := mix hsh (r.1.getD i 0).toUInt64
+        hsh := mix hsh v.toUInt64
         changed := changed + 1
-    buf := r.1
     n := n + 1
   return s!"H={hex16 hsh} N={n} C={changed} P={pan} NP={npan} S={sw}.{sh}"
 
